@@ -356,6 +356,10 @@ type Pool struct {
 var allPools []*Pool
 var poolsMu sync.Mutex
 
+// ResetPools empties every pool (the harness calls it before each execution so that executions do
+// not depend on what earlier executions left in the process-wide pools).
+func ResetPools() { resetPools() }
+
 func resetPools() {
 	poolsMu.Lock()
 	defer poolsMu.Unlock()
